@@ -331,9 +331,12 @@ def run(chk, b, tier):
             chk.nontrivial(("repo", i))
         if r["sample"]:
             chk.sample(r["sample"], limit=5)
-    from .C07 import many_refs_case
+    from .C07 import many_refs_case, many_walked_refs_case
     many_refs_case(chk, sz, scratch, 120000 if tier == "quick" else 400000, prefix="C11")
+    many_walked_refs_case(chk, sz, scratch, 3500 if tier == "quick" else 10000, prefix="C11")
     chk.cov["cli_repositories"] = n
+    from ._camp import generic_fault_sweep
+    generic_fault_sweep(chk, b, "C11", [['-v', '--no-progress'], ['--threshold=0', '--no-progress'], ['--json', '--json-version=2', '--no-progress']])
     chk.cov["rule"] = ("API: synthetic HistorySize vectors (each metric at k*reference, +-1, 0, cap-1, cap, float-boundary values) "
                        "through the real TableString / JSON v1 / JSON v2 for 12 thresholds; CLI: 'concerning' repositories "
                        "(tag chains, octopus merges, deep/long paths, gitlinks, wide trees, small bombs) x 3 formats x 7 "
